@@ -428,10 +428,14 @@ template<>
 FASTOR_INLINE void _transpose_dispatch<float,8,8>(const float * FASTOR_RESTRICT a, float * FASTOR_RESTRICT out) {
     _transpose<float,8,8>(a,out);
 }
+// only when the 16x16 kernel exists: otherwise _transpose<float,16,16> is the generic blocked
+// transpose, which would call back into this dispatcher for its 16x16 blocks
+#if defined(FASTOR_AVX512F_IMPL) && defined(FASTOR_AVX512DQ_IMPL)
 template<>
 FASTOR_INLINE void _transpose_dispatch<float,16,16>(const float * FASTOR_RESTRICT a, float * FASTOR_RESTRICT out) {
     _transpose<float,16,16>(a,out);
 }
+#endif
 template<>
 FASTOR_INLINE void _transpose_dispatch<double,2,2>(const double * FASTOR_RESTRICT a, double * FASTOR_RESTRICT out) {
     _transpose<double,2,2>(a,out);
